@@ -32,6 +32,8 @@ class Unsupported(Exception):
 
 # ============================================================================================ scalars
 def unwrap(x):
+    if isinstance(x, np.ndarray) and x.ndim == 0:
+        x = x.item()
     if isinstance(x, (SV, SB)):
         return x.v
     if isinstance(x, (np.generic,)):
@@ -730,15 +732,22 @@ class SymNd(np.ndarray):
             return out.reshape(self.shape)
         return self.copy()      # float targets: dtype erasure (exact reals)
 
+    def _bool_reduce(self, axis, op):
+        a = np.moveaxis(np.asarray(self), axis, -1)
+        out = np.empty(a.shape[:-1], dtype=object)
+        for idx in np.ndindex(*a.shape[:-1]):
+            out[idx] = wrap_b(op(*[unwrap_b(x) for x in a[idx]]))
+        return SymNd(out)
+
     def any(self, axis=None, **kw):
         if axis is None:
             return wrap_b(or_(*[unwrap_b(x) for x in self.ravel()]))
-        return np.apply_along_axis(lambda r: SymNd(r).any(), axis, self)
+        return self._bool_reduce(axis, or_)
 
     def all(self, axis=None, **kw):
         if axis is None:
             return wrap_b(and_(*[unwrap_b(x) for x in self.ravel()]))
-        return np.apply_along_axis(lambda r: SymNd(r).all(), axis, self)
+        return self._bool_reduce(axis, and_)
 
     def max(self, axis=None, **kw):
         return _reduce_minmax(self, axis, True)
@@ -1044,7 +1053,14 @@ class NpProxy(types.ModuleType):
 
     def _mm(self, a, b, is_max):
         def f(x, y):
+            x0, y0 = x, y
             x, y = _num(x), _num(y)
+            if isinstance(x, _Inf) or isinstance(y, _Inf):
+                if isinstance(x, _Inf) and isinstance(y, _Inf):
+                    return max(x.sign, y.sign) * math.inf if is_max else min(x.sign, y.sign) * math.inf
+                inf_, other, o0 = (x, y, y0) if isinstance(x, _Inf) else (y, x, x0)
+                pick_inf = (inf_.sign > 0) == is_max
+                return inf_.sign * math.inf if pick_inf else o0
             r = ite(sx.gt(x, y), x, y) if is_max else ite(sx.lt(x, y), x, y)
             return wrap(r) if sx.is_sym(r) or isinstance(r, Fraction) else r
         if _has_sym(a) or _has_sym(b):
@@ -1118,6 +1134,32 @@ class NpProxy(types.ModuleType):
         if isinstance(cond, np.ndarray) and cond.dtype == object:
             cond = concretize_mask(cond)
         return _real_np.extract(cond, a)
+
+    def float32(self, x=0.0):
+        return x if isinstance(x, (SV,)) else (x._i() if isinstance(x, SB) else _real_np.float32(x))
+
+    def float64(self, x=0.0):
+        return x if isinstance(x, (SV,)) else (x._i() if isinstance(x, SB) else _real_np.float64(x))
+
+    def quantile(self, a, q, axis=None, **kw):
+        if not _has_sym(a):
+            return _real_np.quantile(a, q, axis=axis, **kw)
+        v = np.asarray(a, dtype=object).ravel()
+        order = sym_argsort(v)
+        srt = [v[i] for i in order]
+        n = len(srt)
+        pos = _num(q) * (n - 1)
+        if sx.is_sym(pos):
+            raise Unsupported("symbolic quantile level")
+        lo = int(math.floor(pos))
+        hi = min(lo + 1, n - 1)
+        frac = Fraction(pos) - lo
+        return srt[lo] + (srt[hi] - srt[lo]) * frac if frac else srt[lo]
+
+    def median(self, a, axis=None, **kw):
+        if not _has_sym(a):
+            return _real_np.median(a, axis=axis, **kw)
+        return self.quantile(a, Fraction(1, 2))
 
     def ceil(self, a):
         if isinstance(a, SV):
@@ -1368,13 +1410,23 @@ def to_cy_shim(arr, ty):
 
 
 # ============================================================================================ patching
-def float_shim(x=0.0):
-    """float(x) on a proxy value keeps the proxy (exact reals); otherwise the builtin"""
-    if isinstance(x, SV):
-        return x
-    if isinstance(x, SB):
-        return x._i()
-    return float(x)
+class _FloatMeta(type):
+    def __instancecheck__(cls, obj):
+        return isinstance(obj, (float, SV))
+
+    def __subclasscheck__(cls, sub):
+        return issubclass(sub, float)
+
+
+class float_shim(float, metaclass=_FloatMeta):
+    """float(x) on a proxy value keeps the proxy (exact reals); otherwise the builtin.  isinstance(x, float) keeps working."""
+
+    def __new__(cls, x=0.0):
+        if isinstance(x, SV):
+            return x
+        if isinstance(x, SB):
+            return x._i()
+        return float(x)
 
 
 _MISSING = object()
